@@ -1,0 +1,56 @@
+//go:build verif
+
+// Package verifhook is an export shim for the out-of-tree verification harness (/verif).
+// It is compiled only with the "verif" build tag and adds no behaviour: it constructs the
+// handler and the server exactly as cmd/ps3netsrv-go/server.go does, so that a harness living
+// in another module can host the real server on file systems and listeners of its choosing.
+package verifhook
+
+import (
+	"log/slog"
+	"time"
+
+	"github.com/spf13/afero"
+
+	"github.com/xakep666/ps3netsrv-go/internal/copier"
+	"github.com/xakep666/ps3netsrv-go/internal/handler"
+	"github.com/xakep666/ps3netsrv-go/pkg/fs"
+	"github.com/xakep666/ps3netsrv-go/pkg/server"
+)
+
+// State is the per-connection state of the real handler.
+type State = handler.State
+
+// Server is the real server instantiated with the real handler state.
+type Server = server.Server[handler.State]
+
+// NewHandler wires the real handler on top of base (which plays the role of
+// afero.NewBasePathFs(afero.NewOsFs(), root) in cmd/ps3netsrv-go/server.go).
+func NewHandler(base afero.Fs, allowWrite bool, bufferSize int64) server.Handler[handler.State] {
+	var cop *copier.Copier
+	if bufferSize > 0 {
+		cop = copier.NewPooledCopier(bufferSize)
+	} else {
+		cop = copier.NewCopier()
+	}
+
+	return &handler.Handler{
+		Fs:         &fs.FS{Fs: base},
+		AllowWrite: allowWrite,
+		Copier:     cop,
+	}
+}
+
+// NewServer wires the real server around h.
+func NewServer(h server.Handler[handler.State], readTimeout time.Duration, logger *slog.Logger) *Server {
+	return &Server{
+		Handler:     h,
+		ReadTimeout: readTimeout,
+		Logger:      logger,
+	}
+}
+
+// WrapSlogHandler wraps h the way the CLI does before installing it as the default logger.
+func WrapSlogHandler(h slog.Handler) slog.Handler {
+	return &handler.SlogContextHandler{Handler: h}
+}
